@@ -201,7 +201,7 @@ DECOR = {"C01": 0.25, "C03": 0.1, "C07": 0.1, "C19": 0.2}
 
 
 def make_case(prop, rng, gen_opts=None):
-    opts = dict(lattice_arrays=True)
+    opts = dict(lattice_arrays=True, multiply_surfaces=True)
     opts.update(gen_opts or {})
     wild = rng.random() < WILD[prop]
     return rt.gen_case(rng, wild=wild, opts=opts, decorate_p=DECOR[prop])
